@@ -46,6 +46,9 @@ func ThreadCPU() time.Duration {
 // watchdog goroutine) - typically to record the violation and exit so that the
 // driver resumes after the case.
 type Watchdog struct {
+	// Busy is set while a monitored call is in flight; CPU burnt outside calls (generators, a
+	// fuzzing engine) does not count
+	Busy   atomic.Bool
 	Step   atomic.Uint64
 	Limit  time.Duration
 	OnHang func(step uint64, burnt time.Duration)
@@ -61,7 +64,7 @@ func (w *Watchdog) Start() {
 			time.Sleep(100 * time.Millisecond)
 			now := w.Step.Load()
 			cpu := ProcessCPU()
-			if now != last {
+			if now != last || !w.Busy.Load() {
 				last, base = now, cpu
 				continue
 			}
